@@ -780,6 +780,39 @@ func run(raw json.RawMessage) driver.Result {
 		d = dM()
 	}
 	switch in.K {
+	case "dupkey":
+		// one key on two fields of one struct (directly, or by hoisting an embedded struct's field):
+		// yaml.v2 refuses such a struct type; the decoder must report that as an error
+		fs := []reflect.StructField{}
+		for i := 0; i < T.NumField(); i++ {
+			fs = append(fs, T.Field(i))
+		}
+		kf := fs[r.Intn(len(fs))]
+		key := kf.Tag.Get("yaml") // the key yaml.v2 sees for that field
+		if key == "" {
+			key = kf.Tag.Get("dials")
+		}
+		dup := reflect.StructField{Name: "Fdup", Type: reflect.TypeOf(0), Tag: reflect.StructTag(fmt.Sprintf(`dials:"%s"`, key))}
+		flat := r.Chance(1, 2)
+		if flat {
+			et := reflect.StructOf([]reflect.StructField{dup})
+			fs = append(fs, reflect.StructField{Name: "Edup", Type: et, Anonymous: true, Tag: `dials:"edup"`})
+		} else {
+			fs = append(fs, dup)
+		}
+		T2 := reflect.StructOf(fs)
+		PT2 := ptrify.Pointerify(T2, reflect.New(T2).Elem())
+		saved := decoders[1]
+		decoders[1] = &dyaml.Decoder{FlattenAnonymous: flat}
+		_, err, p := decodeWith(in.Wrap, 1, render(1, d), PT2)
+		decoders[1] = saved
+		var direct []string
+		if p {
+			direct = append(direct, fmt.Sprintf("yaml decoder panicked on a struct type with the key %q on two fields: %v", key, err))
+		} else if err == nil {
+			direct = append(direct, fmt.Sprintf("yaml decoder accepted a struct type with the key %q on two fields", key))
+		}
+		return driver.Result{Coq: "Skipped 1", Kind: "dupkey", Nontrivial: true, Tags: []string{"duplicate-key-type"}, Direct: direct}
 	case "flat":
 		saved := decoders[1]
 		decoders[1] = &dyaml.Decoder{FlattenAnonymous: true}
@@ -941,6 +974,11 @@ func gen(r *coqfmt.Rng, n int, tier string) []json.RawMessage {
 		depth, width := r.Intn(3), 2+r.Intn(4)
 		wrap := r.Chance(1, 3)
 		embed := r.Chance(1, 3)
+		if r.Chance(1, 40) {
+			b, _ := json.Marshal(input{K: "dupkey", State: st, Depth: depth, Width: width, Wrap: wrap})
+			out = append(out, b)
+			continue
+		}
 		if embed && r.Chance(2, 3) {
 			// decoders/yaml with FlattenAnonymous on a type with embedded structs
 			b, _ := json.Marshal(input{K: "flat", State: st, Depth: depth, Width: width, Wrap: wrap, Embed: true})
